@@ -1,6 +1,7 @@
 mod atomic_props;
 mod battery;
 mod cache_props;
+mod edit_props;
 mod refcomp;
 mod cnf_props;
 mod common;
@@ -47,6 +48,7 @@ fn main() {
         "C18" => sample_props::c18(&a),
         "C08" => atomic_props::c08(&a),
         "C10" => persist_props::c10(&a),
+        "C11" => edit_props::c11(&a),
         "C12" => cache_props::c12(&a),
         "C13" => stream_props::c13(&a),
         "C14" => conc_props::c14(&a),
